@@ -84,6 +84,9 @@ enum Act {
     SelfNow,
     SelfLater,
     SendDirect2,
+    /// schedule_in(1 ms) / schedule_in(2 ms): used by the long bursts
+    SelfIn1,
+    SelfIn2,
 }
 const ACTS: [Act; 5] = [Act::SendDirect, Act::SendLat, Act::SelfNow, Act::SelfLater, Act::SendDirect2];
 const D_MS: u64 = 5;
@@ -106,6 +109,8 @@ impl Module for Tx {
                     Act::SendLat => send(msg, "l"),
                     Act::SelfNow => schedule_in(msg, Duration::ZERO),
                     Act::SelfLater => schedule_in(msg, Duration::from_millis(D_MS)),
+                    Act::SelfIn1 => schedule_in(msg, Duration::from_millis(1)),
+                    Act::SelfIn2 => schedule_in(msg, Duration::from_millis(2)),
                 }
             }
         } else {
@@ -142,27 +147,30 @@ fn run_net(seq: &[Act], n: usize, t_us: u64) -> Result<Vec<(&'static str, u16, u
     })
 }
 
-fn check_net(seq: &[Act]) -> Result<u64, String> {
+/// receiver and arrival time (ns) of the message emitted by one action at 1 ms
+fn arrival(a: Act) -> (&'static str, u128) {
     let t1 = 1_000_000u128;
-    let t2 = t1 + u128::from(D_MS) * 1_000_000;
+    match a {
+        Act::SendDirect | Act::SendDirect2 => ("rx", t1),
+        Act::SendLat => ("rx", t1 + u128::from(D_MS) * 1_000_000),
+        Act::SelfNow => ("tx", t1),
+        Act::SelfLater => ("tx", t1 + u128::from(D_MS) * 1_000_000),
+        Act::SelfIn1 => ("tx", t1 + 1_000_000),
+        Act::SelfIn2 => ("tx", t1 + 2_000_000),
+    }
+}
+
+fn check_net(seq: &[Act]) -> Result<u64, String> {
     // expected arrival order per receiver = emission order of the messages arriving at that instant
-    let exp_for = |who: &str, at: u128| -> Vec<u16> {
-        seq.iter()
-            .enumerate()
-            .filter(|(_, a)| match (who, at == t1) {
-                ("rx", true) => matches!(a, Act::SendDirect | Act::SendDirect2),
-                ("rx", false) => matches!(a, Act::SendLat),
-                ("tx", true) => matches!(a, Act::SelfNow),
-                _ => matches!(a, Act::SelfLater),
-            })
-            .map(|(i, _)| i as u16)
-            .collect()
-    };
+    let exp_for = |who: &str, at: u128| -> Vec<u16> { seq.iter().enumerate().filter(|(_, a)| arrival(**a) == (who, at)).map(|(i, _)| i as u16).collect() };
+    let mut instants: Vec<u128> = seq.iter().map(|a| arrival(*a).1).collect();
+    instants.sort_unstable();
+    instants.dedup();
     let mut first: Option<Vec<(&'static str, u16, u128)>> = None;
     for (n, t_us) in [(4usize, 700u64), (1028, 2500), (3, 5000), (1, 1000)] {
         let got = run_net(seq, n, t_us)?;
         for who in ["rx", "tx"] {
-            for at in [t1, t2] {
+            for &at in &instants {
                 let g: Vec<u16> = got.iter().filter(|e| e.0 == who && e.2 == at).map(|e| e.1).collect();
                 let e = exp_for(who, at);
                 if g != e {
@@ -184,6 +192,14 @@ fn check_net(seq: &[Act]) -> Result<u64, String> {
     Ok(vcheck::fp(&first))
 }
 
+/// action alphabet of the long bursts (several delays and receivers so that a burst is neither
+/// sorted by time nor free of ties)
+const BURST_ACTS: [Act; 6] = [Act::SelfNow, Act::SelfIn1, Act::SelfIn2, Act::SendDirect, Act::SendLat, Act::SelfLater];
+
+fn burst(pattern: &[usize], len: usize) -> Vec<Act> {
+    (0..len).map(|i| BURST_ACTS[pattern[i % pattern.len()]]).collect()
+}
+
 fn decode(code: usize, len: usize) -> Vec<Act> {
     let mut c = code;
     (0..len)
@@ -203,7 +219,7 @@ impl Property for C03 {
         format!(
             "queue layer: the C01 explicit-state BFS with the tie oracle (fetch_next must return exactly the head of the reference list ordered by (time, scheduled-for-current-instant first, scheduling order)) on (n,t,depth) = {:?}; \
              runtime layer: every event program of 1..={} events with delays from {:?} x start in {{0,5}}, each run on 5 queue parameterisations (logs must equal the rule and each other) and with 1 and 4 unrelated future events; \
-             net layer: every sequence of 1..={} actions from {{send over two channel-less chains, send over a latency channel, schedule_in(0), schedule_in(d)}} emitted by one handler, on 4 queue parameterisations; \
+             net layer: every sequence of 1..={} actions from {{send over two channel-less chains, send over a latency channel, schedule_in(0), schedule_in(d)}} emitted by one handler, on 4 queue parameterisations, plus long bursts (16..70 events, thorough up to 300) of every periodic pattern of period 1..3 over six actions (three self-schedule delays, direct and latency sends); \
              distinct_nontrivial = distinct canonical queue states with pending events + programs/sequences containing at least one tie",
             queue_cfgs(tier),
             tier.pick(4, 5),
@@ -218,7 +234,7 @@ impl Property for C03 {
         ]
     }
     fn required_features(&self, _tier: Tier) -> Vec<&'static str> {
-        vec!["fetch_with_tie", "add_at_current_time", "rt_program_with_tie", "rt_zero_delay_followup_tied_with_older_event", "net_sequence_with_same_instant_pair"]
+        vec!["fetch_with_tie", "add_at_current_time", "rt_program_with_tie", "rt_zero_delay_followup_tied_with_older_event", "net_sequence_with_same_instant_pair", "net_long_burst"]
     }
     fn crash_is_violation(&self) -> bool {
         true
@@ -302,8 +318,36 @@ impl Property for C03 {
                 }
             }
         }
+        // long bursts from one handler: every periodic pattern of period 1..=3 over six actions
+        for period in 1..=3usize {
+            for code in 0..BURST_ACTS.len().pow(period as u32) {
+                let mut c = code;
+                let pat: Vec<usize> = (0..period).map(|_| { let x = c % BURST_ACTS.len(); c /= BURST_ACTS.len(); x }).collect();
+                for len in ctx.tier.pick(vec![16usize, 33, 40, 70], vec![16usize, 32, 33, 34, 40, 64, 70, 128, 300]) {
+                    if !ctx.mine() {
+                        continue;
+                    }
+                    let seq = burst(&pat, len);
+                    ctx.begin(|| json!({"layer": "net-burst", "pattern": pat, "len": len}));
+                    ctx.out.evaluations += 1;
+                    ctx.out.traces += 4;
+                    ctx.out.states += 1;
+                    ctx.out.transitions += len as u64 * 4;
+                    ctx.out.nontrivial += 1;
+                    ctx.hit("net_long_burst");
+                    match check_net(&seq) {
+                        Ok(o) => ctx.outcome(o),
+                        Err(d) => ctx.violation("net-tie-order", || json!({"layer": "net-burst", "pattern": pat, "len": len}), d),
+                    }
+                }
+            }
+        }
     }
     fn replay(&self, case: &Value) -> Result<(), String> {
+        if case.get("layer").and_then(Value::as_str) == Some("net-burst") {
+            let pat: Vec<usize> = case["pattern"].as_array().unwrap().iter().map(|x| x.as_u64().unwrap() as usize).collect();
+            return check_net(&burst(&pat, case["len"].as_u64().unwrap() as usize)).map(|_| ());
+        }
         match case.get("layer").and_then(Value::as_str) {
             Some("runtime") => check_rt(case["start_ns"].as_u64().unwrap(), &Arc::new(Program::from_json(&case["program"]))).map(|_| ()),
             Some("net") => check_net(&decode(case["code"].as_u64().unwrap() as usize, case["len"].as_u64().unwrap() as usize)).map(|_| ()),
